@@ -178,6 +178,243 @@ C05Clauses(step) ==
   ELSE {}
 
 -----------------------------------------------------------------------------
+(* C18 — identifier lookup and typed listing agree with the record list     *)
+(* step.look  = Seq([h, n: name (string spelling), idx: indices returned])   *)
+(* step.typed = [h -> [class name -> indices]]   step.copy = [h -> BOOLEAN]  *)
+ScanIdx(recs, u) == SelectSeq([i \in 1..Len(recs) |-> i], LAMBDA i : recs[i].id = u)
+SubKinds(cls) ==
+  CASE cls = "element"  -> Elements
+    [] cls = "relation" -> Kinds \ Elements
+    [] cls = "specialization" -> {"specialization", "mention"}
+    [] OTHER -> {cls}
+
+C18_lookup(step) ==
+  LET known == {i \in 1..Len(step.look) :
+                  DenoteIn(step.post, step.parents, step.look[i].h, step.look[i].n) # NONE}
+  IN Cl("C18_lookup", known # {},
+        \A i \in known : LET e == step.look[i] IN
+           e.idx = ScanIdx(step.post.con[e.h].recs, DenoteIn(step.post, step.parents, e.h, e.n)))
+
+(* get_record(x) called as an operation (x may be a QualifiedName under any prefix) *)
+C18_get(step) ==
+  LET u == DenoteIn(step.pre, step.parents, step.op.h, step.op.id) IN
+  Cl("C18_get", step.op.op = "GetRecord" /\ u # NONE,
+     step.exc = "none" /\ step.res = ScanIdx(step.post.con[step.op.h].recs, u)
+     /\ step.post.con[step.op.h].recs = step.pre.con[step.op.h].recs)
+
+C18_typed(step) ==
+  Cl("C18_typed", \E h \in DOMAIN step.typed : step.post.con[h].recs # <<>>,
+     \A h \in DOMAIN step.typed : \A cls \in DOMAIN step.typed[h] :
+        step.typed[h][cls] = SelectSeq([i \in 1..Len(step.post.con[h].recs) |-> i],
+                                       LAMBDA i : step.post.con[h].recs[i].k \in SubKinds(cls)))
+
+C18_copy(step) == Cl("C18_copy", TRUE, \A h \in DOMAIN step.copy : step.copy[h])
+
+C18Clauses(step) ==
+  IF "look" \in DOMAIN step
+  THEN {C18_lookup(step), C18_typed(step), C18_copy(step)}
+       \cup (IF step.op.op = "GetRecord" THEN {C18_get(step)} ELSE {})
+  ELSE {}
+
+-----------------------------------------------------------------------------
+(* Content of logged records: URI level, kind aware, attributes as a set     *)
+Content(r) == [k |-> r.k, id |-> r.id, attrs |-> SeqToSet(r.attrs)]
+ContentSeq(recs) == [i \in 1..Len(recs) |-> Content(recs[i])]
+CountIn(sq, x) == Cardinality({i \in 1..Len(sq) : sq[i] = x})
+SameBag(s1, s2) == /\ Len(s1) = Len(s2)
+                   /\ \A x \in SeqToSet(s1) \cup SeqToSet(s2) : CountIn(s1, x) = CountIn(s2, x)
+RECURSIVE FlatRecs(_, _, _)
+FlatRecs(obs, bs, i) == IF i > Len(bs) THEN <<>> ELSE obs.con[bs[i]].recs \o FlatRecs(obs, bs, i + 1)
+BundleWithId(obs, h, u) == {b \in SeqToSet(obs.con[h].bundles) : obs.con[b].id = u}
+NewHandles(step) == DOMAIN step.post.con \ DOMAIN step.pre.con
+(* a whole container (and, for a document, its bundles) looks exactly as before *)
+SameCon(step, h) ==
+  /\ h \in DOMAIN step.post.con
+  /\ step.post.con[h] = step.pre.con[h] /\ step.post.ns[h] = step.pre.ns[h]
+SameDeep(step, h) ==
+  /\ SameCon(step, h)
+  /\ \A b \in SeqToSet(step.pre.con[h].bundles) : SameCon(step, b)
+
+-----------------------------------------------------------------------------
+(* C09 — flattened(), update() and add_bundle() conserve records            *)
+C09_flat(step) ==
+  LET h == step.op.h
+      out == step.op.out
+  IN Cl("C09_flat", step.op.op = "Flattened" /\ step.pre.con[h].kind = "doc"
+                    /\ step.pre.con[h].bundles # <<>>,
+        /\ step.exc = "none"
+        /\ out \in DOMAIN step.post.con
+        /\ step.post.con[out].bundles = <<>> /\ step.post.con[out].kind = "doc"
+        /\ SameBag(ContentSeq(step.post.con[out].recs),
+                   ContentSeq(step.pre.con[h].recs \o FlatRecs(step.pre, step.pre.con[h].bundles, 1)))
+        /\ SameDeep(step, h))
+
+C09_update(step) ==
+  LET h == step.op.h
+      o == step.op.other
+      obs == step.pre.con[o].bundles
+      bundleOK(b) ==
+        LET u == step.pre.con[b].id
+            tgt == BundleWithId(step.post, h, u)
+            old == BundleWithId(step.pre, h, u)
+        IN /\ Cardinality(tgt) = 1
+           /\ LET t == CHOOSE x \in tgt : TRUE IN
+                SameBag(ContentSeq(step.post.con[t].recs),
+                        ContentSeq((IF old = {} THEN <<>> ELSE step.pre.con[CHOOSE x \in old : TRUE].recs)
+                                   \o step.pre.con[b].recs))
+  IN Cl("C09_update", step.op.op = "Update" /\ step.pre.con[h].kind = "doc",
+        /\ step.exc = "none"
+        /\ SameBag(ContentSeq(step.post.con[h].recs),
+                   ContentSeq(step.pre.con[h].recs \o step.pre.con[o].recs))
+        /\ \A b \in SeqToSet(obs) : bundleOK(b)
+        /\ {step.post.con[b].id : b \in SeqToSet(step.post.con[h].bundles)}
+             = {step.pre.con[b].id : b \in SeqToSet(step.pre.con[h].bundles)}
+               \cup {step.pre.con[b].id : b \in SeqToSet(obs)}
+        /\ Len(step.post.con[h].bundles) = Cardinality({step.post.con[b].id : b \in SeqToSet(step.post.con[h].bundles)})
+        /\ SameDeep(step, o))
+
+(* update on a plain bundle: records of a bundle-free other are appended, other unchanged *)
+C09_update_bundle(step) ==
+  LET h == step.op.h
+      o == step.op.other
+  IN Cl("C09_update_bundle", step.op.op = "Update" /\ step.pre.con[h].kind = "bun"
+                             /\ step.pre.con[o].bundles = <<>>,
+        /\ step.exc = "none"
+        /\ SameBag(ContentSeq(step.post.con[h].recs),
+                   ContentSeq(step.pre.con[h].recs \o step.pre.con[o].recs))
+        /\ SameCon(step, o))
+
+(* the identifier an add_bundle call asks for, from the logged tables *)
+RequestedId(step) ==
+  LET a == step.op IN
+  IF a.id = <<>> THEN step.pre.con[a.arg].id
+  ELSE IF a.id[1].rep = "qn" THEN a.id[1].ns \o a.id[1].l
+  ELSE IF a.id[1].rep = "pl" THEN
+       (* a string identifier is read in the scope of the attached bundle (which carries  *)
+       (* the argument's registered namespaces), then in the document's                    *)
+       LET own == LookupPrefix(step.pre.ns[a.arg], a.id[1].p)
+           up  == LookupPrefix(step.pre.ns[a.h], a.id[1].p)
+       IN IF own # NONE THEN own \o a.id[1].l ELSE IF up # NONE THEN up \o a.id[1].l ELSE NONE
+  ELSE NONE
+MustRefuse(step) ==
+  LET a == step.op
+      u == RequestedId(step)
+  IN \/ (step.pre.con[a.arg].kind = "doc" /\ step.pre.con[a.arg].bundles # <<>>)
+     \/ (a.id = <<>> /\ step.pre.con[a.arg].id = NONE)
+     \/ (u # NONE /\ BundleWithId(step.pre, a.h, u) # {})
+
+C09_addbundle_ok(step) ==
+  LET a == step.op
+      u == RequestedId(step)
+      nb == SeqToSet(step.post.con[a.h].bundles) \ SeqToSet(step.pre.con[a.h].bundles)
+  IN Cl("C09_addbundle_ok", a.op = "AddBundle" /\ u # NONE /\ ~MustRefuse(step),
+        /\ step.exc = "none"
+        /\ Cardinality(nb) = 1
+        /\ Len(step.post.con[a.h].bundles) = Len(step.pre.con[a.h].bundles) + 1
+        /\ LET b == CHOOSE x \in nb : TRUE IN
+             /\ step.post.con[b].id = u
+             /\ SameBag(ContentSeq(step.post.con[b].recs), ContentSeq(step.pre.con[a.arg].recs))
+        /\ step.post.con[a.h].recs = step.pre.con[a.h].recs
+        /\ \A b \in SeqToSet(step.pre.con[a.h].bundles) : SameCon(step, b)
+        /\ step.pre.con[a.arg].kind = "doc" => SameDeep(step, a.arg))
+
+C09_addbundle_refuse(step) ==
+  Cl("C09_addbundle_refuse", step.op.op = "AddBundle" /\ MustRefuse(step),
+     /\ step.exc = "ProvException"
+     /\ step.post.con[step.op.h] = step.pre.con[step.op.h]
+     /\ step.post.ns[step.op.h] = step.pre.ns[step.op.h]
+     /\ \A b \in SeqToSet(step.pre.con[step.op.h].bundles) : SameCon(step, b))
+
+C09_bundle(step) ==
+  LET a == step.op
+      u == DenoteIn(step.pre, step.parents, a.h, a.id)
+      dup == BundleWithId(step.pre, a.h, u) # {}
+  IN Cl("C09_bundle", a.op = "Bundle" /\ u # NONE,
+        IF dup THEN /\ step.exc = "ProvException"
+                    /\ step.post.con[a.h] = step.pre.con[a.h]
+        ELSE /\ step.exc = "none"
+             /\ a.out \in DOMAIN step.post.con
+             /\ step.post.con[a.h].bundles = Append(step.pre.con[a.h].bundles, a.out)
+             /\ step.post.con[a.out].id = u /\ step.post.con[a.out].recs = <<>>
+             /\ step.post.con[a.h].recs = step.pre.con[a.h].recs)
+
+C09Clauses(step) ==
+  CASE step.op.op = "Flattened" -> {C09_flat(step)}
+    [] step.op.op = "Update"    -> {C09_update(step), C09_update_bundle(step)}
+    [] step.op.op = "AddBundle" -> {C09_addbundle_ok(step), C09_addbundle_refuse(step)}
+    [] step.op.op = "Bundle"    -> {C09_bundle(step)}
+    [] OTHER -> {}
+
+-----------------------------------------------------------------------------
+(* C08 — unified() merges exactly the records sharing an identifier          *)
+(* UnifiedSpec: as the property states it, on logged records: group by       *)
+(* (identifier, kind), union of attributes, anonymous records untouched,     *)
+(* first-occurrence order.                                                   *)
+SameGroup(r1, r2) == r1.id # NONE /\ r1.id = r2.id /\ r1.k = r2.k
+UnifiedSpec(recs) ==
+  LET firsts == SelectSeq([i \in 1..Len(recs) |-> i],
+                          LAMBDA i : recs[i].id = NONE \/ ~\E j \in 1..(i - 1) : SameGroup(recs[j], recs[i]))
+  IN [n \in 1..Len(firsts) |->
+        LET r == recs[firsts[n]] IN
+        IF r.id = NONE THEN Content(r)
+        ELSE [k |-> r.k, id |-> r.id,
+              attrs |-> UNION {SeqToSet(recs[j].attrs) : j \in {x \in 1..Len(recs) : SameGroup(recs[x], r)}}]]
+(* two records disagree on a single-valued formal attribute they both have *)
+Disagree(r1, r2) ==
+  \E x \in FormalPart(r1), y \in FormalPart(r2) :
+     x.a = y.a /\ ~PEq(x.v, y.v) /\ ~(x.a = ProvU("entity") /\ r1.k = "membership")
+ConflictSameKind(recs) == \E i, j \in 1..Len(recs) : i < j /\ SameGroup(recs[i], recs[j]) /\ Disagree(recs[i], recs[j])
+ConflictAnyKind(recs)  == \E i, j \in 1..Len(recs) : i < j /\ recs[i].id # NONE /\ recs[i].id = recs[j].id
+                                                         /\ Disagree(recs[i], recs[j])
+UnifySources(step) == {step.op.h} \cup SeqToSet(step.pre.con[step.op.h].bundles)
+
+C08_result(step) ==
+  LET h == step.op.h
+      out == step.op.out
+      pre == step.pre.con
+      post == step.post.con
+      resBundle(b) == LET hits == BundleWithId(step.post, out, pre[b].id) IN
+                      /\ Cardinality(hits) = 1
+                      /\ ContentSeq(post[CHOOSE x \in hits : TRUE].recs) = UnifiedSpec(pre[b].recs)
+  IN Cl("C08_result", step.op.op = "Unified" /\ step.exc = "none",
+        /\ out \in DOMAIN post
+        /\ ContentSeq(post[out].recs) = UnifiedSpec(pre[h].recs)
+        /\ post[out].kind = pre[h].kind
+        /\ pre[h].kind = "bun" => post[out].id = pre[h].id
+        /\ Len(post[out].bundles) = Len(pre[h].bundles)
+        /\ \A i \in 1..Len(pre[h].bundles) : post[post[out].bundles[i]].id = pre[pre[h].bundles[i]].id
+        /\ \A b \in SeqToSet(pre[h].bundles) : resBundle(b))
+C08_conflict(step) ==
+  Cl("C08_conflict", step.op.op = "Unified" /\
+        \E c \in UnifySources(step) : ConflictSameKind(step.pre.con[c].recs),
+     step.exc = "ProvException")
+C08_raise(step) ==
+  Cl("C08_raise", step.op.op = "Unified" /\ step.exc # "none",
+     step.exc = "ProvException" /\ \E c \in UnifySources(step) : ConflictAnyKind(step.pre.con[c].recs))
+C08_pure(step) == Cl("C08_pure", step.op.op = "Unified", SameDeep(step, step.op.h))
+C08Clauses(step) ==
+  IF step.op.op = "Unified" THEN {C08_result(step), C08_conflict(step), C08_raise(step), C08_pure(step)} ELSE {}
+
+-----------------------------------------------------------------------------
+(* C12 — derived documents and copied records share no mutable state         *)
+(* Frame condition over ALL live handles: whatever the call does not own      *)
+(* looks exactly as before (content, registered namespaces, default).        *)
+Owned(step) ==
+  LET a == step.op
+      pre == step.pre.con
+      withBundles(h) == {h} \cup SeqToSet(pre[h].bundles)
+  IN NewHandles(step) \cup
+     (CASE a.op \in {"NewRec", "AddRecord", "AddNs", "SetDefault", "ResQN", "GetRecord", "Bundle"} -> {a.h}
+        [] a.op \in {"AddAttrs", "SetTime", "AddType"} -> {a.r.c}
+        [] a.op = "Update" -> withBundles(a.h)
+        [] a.op = "AddBundle" -> {a.h} \cup (IF pre[a.arg].kind = "bun" THEN {a.arg} ELSE {})
+        [] OTHER -> {})
+C12_frame(step) ==
+  Cl("C12_frame", TRUE,
+     \A h \in DOMAIN step.pre.con \ Owned(step) : SameCon(step, h))
+C12Clauses(step) == IF "con" \in DOMAIN step.pre THEN {C12_frame(step)} ELSE {}
+
+-----------------------------------------------------------------------------
 (* Conformance (drift) clauses: the model's post-state against the logged   *)
 (* one.  A failure here never becomes a VIOLATION (DESIGN 2.5).             *)
 M_Names(msPost, mres, step) ==
@@ -196,7 +433,10 @@ M_Con(msPost, step) ==
         /\ \A i \in 1..Len(msPost.con[h].recs) :
              LET m == ProjRec(msPost.con[h].recs[i])
                  o == step.post.con[h].recs[i]
-             IN m.k = o.k /\ m.id = o.id /\ m.attrs = SeqToSet(o.attrs))
+             IN m.k = o.k /\ m.id = o.id /\ m.attrs = SeqToSet(o.attrs)
+        /\ ProjCon(msPost.con[h]).kind = step.post.con[h].kind
+        /\ ProjCon(msPost.con[h]).id = step.post.con[h].id
+        /\ msPost.con[h].bundles = step.post.con[h].bundles)
 M_Exc(r, step) == Cl("M_Exc", TRUE, r.exc = step.exc)
 
 =============================================================================
